@@ -271,9 +271,9 @@ func cmdCheck(args []string) int {
 	}
 	seed := 0
 	fmt.Sscan(os.Getenv("VERIF_SEED"), &seed)
-	timeout := 10 * time.Second
+	timeout := 20 * time.Second
 	if *tier == "thorough" {
-		timeout = 60 * time.Second
+		timeout = 90 * time.Second
 	}
 	replayDir := filepath.Join(*verif, "replay", cfg.ID)
 	os.RemoveAll(replayDir)
@@ -308,10 +308,21 @@ func cmdCheck(args []string) int {
 	rr.errs = append(rr.errs, extraErrs...)
 	tmp, _ := os.MkdirTemp("", "govc")
 	defer os.RemoveAll(tmp)
+	kfs := loadKnownFindings(filepath.Join(*verif, "known_findings.jsonl"))
+	for _, k := range kfs {
+		if k.appliesTo(cfg.ID) && k.Status == "open" {
+			for _, name := range k.Obligations {
+				for _, o := range rr.obls {
+					if o.Name == name {
+						o.NoRetry = true // expected to fail: no second chance with a longer budget
+					}
+				}
+			}
+		}
+	}
 	prog.discharge(rr.obls, axioms, solveOpts{timeout: timeout, dir: tmp, jobs: 16})
 
 	// known findings: re-verify functions that carry assume-known-finding without the restriction
-	kfs := loadKnownFindings(filepath.Join(*verif, "known_findings.jsonl"))
 	var kfLines []string
 	openKF := map[string]KnownFinding{} // obligation name -> finding
 	for _, k := range kfs {
